@@ -12,6 +12,8 @@ callback must give the same candidate sequence and result.
 """
 
 import copy
+import os
+import sys
 import itertools
 import random as pyrandom
 from fractions import Fraction
@@ -101,6 +103,14 @@ def patterns(tier):
                 continue
             name = "array%dx%d%s" % (h, w, "".join("," + k + ("" if v is True else "*") for k, v in sorted(opts.items())))
             out.append((name, (lambda h=h, w=w, opts=opts: ArrayBuilder2D(h, w, [0, 1, 2], default=0, **opts)), {"kind": "array", "h": h, "w": w, "opts": opts}))
+    # a user-supplied initial board with givens that are not in the choice list (pre-filled cells)
+    for opts in ({"disallow_adjacent": True}, {"disallow_adjacent": True, "symmetry": True}, {"symmetry": True}, {}):
+        tag = "".join("," + k for k in sorted(opts))
+        out.append(("array2x3-givens" + tag, (lambda opts=opts: ArrayBuilder2D(2, 3, [0, 1, 2], default=0, initial=[[9, 0, 0], [0, 0, 9]], **opts)),
+                    {"kind": "array", "h": 2, "w": 3, "opts": opts, "default": 0, "alphabet": [0, 1, 2, 9]}))
+        out.append(("array1x3-givens" + tag, (lambda opts=opts: ArrayBuilder2D(1, 3, [0, 1], default=0, initial=[[0, 9, 0]], **opts)),
+                    {"kind": "array", "h": 1, "w": 3, "opts": opts, "default": 0, "alphabet": [0, 1, 9]}))
+
     def fresh_board(h, w, make):
         return [[make() for _ in range(w)] for _ in range(h)]
 
@@ -633,8 +643,40 @@ def run_repro(part, name, make, seed_value):
         part.outcome("repro:identical")
 
 
+XPROC_CONFIGS = ["strings-symmetry", "strings-plain", "tuples-symmetry-adjacent", "strings-move", "choice-strings", "segmentation+strings"]
+
+
+def run_xproc(part, name, seed_value):
+    """The same seeded generation in fresh interpreters that differ only in PYTHONHASHSEED (string / tuple choice values
+    hash differently in each): candidate sequence and result must be identical."""
+    import json
+    import subprocess
+
+    script = os.path.join(harness.VERIF, "mc", "scripts", "repro_child.py")
+    outs = []
+    case = {"repro": "cross-interpreter:" + name, "seed": seed_value}
+    for hs in ("0", "1", "2", "3"):
+        env = dict(os.environ, PYTHONHASHSEED=hs)
+        part.count("transitions")
+        r = subprocess.run([sys.executable, script, harness.REPO, name, str(seed_value)], capture_output=True, text=True, env=env, timeout=300)
+        if r.returncode != 0:
+            part.violation("reproducibility:child-raises", dict(case, hashseed=hs), {"stderr": r.stderr[-300:]})
+            return
+        outs.append(json.loads(r.stdout.strip().splitlines()[-1]))
+    if any(o != outs[0] for o in outs[1:]):
+        k = next(i for i, o in enumerate(outs) if o != outs[0])
+        part.violation("reproducibility:depends-on-the-interpreter's-hash-seed", case, {"hashseeds": ["0", str(k)], "results": [outs[0]["result"], outs[k]["result"]],
+                                                                                          "calls": [len(outs[0]["calls"]), len(outs[k]["calls"])]})
+    else:
+        part.add("nontrivial", ("xproc", name, seed_value))
+        part.outcome("repro:identical")
+
+
 def worker(shard, part):
     what = shard[0]
+    if what == "xproc":
+        run_xproc(part, shard[2], shard[3])
+        return
     pats = {n: (mk, meta) for n, mk, meta in patterns(shard[1])}
     if what == "neighbors":
         _, tier, name, D, cap = shard
@@ -668,6 +710,9 @@ def main(tier, seed, only=None):
     for name, _ in repro_configs():
         for s in range(8):
             shards.append(("repro", tier, name, s))
+    for name in XPROC_CONFIGS:
+        for sv in ((0, 5) if tier == "quick" else (0, 1, 2, 5, 7)):
+            shards.append(("xproc", tier, name, sv))
     if only:
         shards = [s for s in shards if s[0] == only]
     run = harness.Run(
@@ -679,7 +724,7 @@ def main(tier, seed, only=None):
         "immutability of all earlier problems.  (B) generate_problem with callback answer, uniqueness, pretest and raw PRNG on a choice tape, "
         "max_steps<=%d, <= %d deviations from the default answers.  (C) randint/choice/shuffle/random: exact distribution over every raw value "
         "at D in {8,12,16,60} for a in -3..3 and every width <= D; with the real 2^32 source: range membership for extreme ranges, 300-element shuffles, stream equality across global random states.  (D) 6 builder configurations x seeds 0..7 run under two global random "
-        "states with a quiet and a PRNG-consuming callback." % (", 3x3" if tier != "quick" else "", 2 if tier == "quick" else 3, 3 if tier == "quick" else 4),
+        "states with a quiet and a PRNG-consuming callback; 6 configurations over string / tuple choice values in four fresh interpreters that differ only in PYTHONHASHSEED." % (", 3x3" if tier != "quick" else "", 2 if tier == "quick" else 3, 3 if tier == "quick" else 4),
     )
     run.assumptions = [
         "the code is parametric in the raw domain size; uniformity is shown for the mapping raw draw -> result at reduced sizes, XorShift's own equidistribution is outside the property",
@@ -718,6 +763,8 @@ def replay(case):
     elif "prng" in case:
         run_prng(part, case["D"])
         part.violations = [v for v in part.violations if all(v.case.get(k) == case.get(k) for k in case)]
+    elif str(case.get("repro", "")).startswith("cross-interpreter:"):
+        run_xproc(part, case["repro"].split(":", 1)[1], case["seed"])
     else:
         run_repro(part, case["repro"], dict(repro_configs())[case["repro"]], case["seed"])
     return (not part.violations), (part.violations[0].detail if part.violations else "holds")
